@@ -14,6 +14,9 @@ import Mathlib.Tactic.LinearCombination
 namespace Lp.C08
 open Lp Lp.Interp Lp.C09
 
+-- the square root of `Stationary_Values` is a parameter (class `SqrtFn`): everything below holds for every instance
+variable [SqrtFn]
+
 /-! ## [T1] The stem function is *the* antiderivative of the returned cubic -/
 
 /-- `integ_segment`: within one segment the stem-function difference equals Simpson's rule, which is
@@ -123,11 +126,12 @@ theorem localExt_defined (o : Obj) (t : Tbl o) (isMax : Bool) (v1 v2 : Rat)
 /-- `localExt_curve_zone` [limits anywhere `Locate` accepts, i.e. also in the 1 % extrapolation zones]:
     every value `Interpolate` returns on `[x1,x2]` lies between `Local_Minimum(x1,x2)` and
     `Local_Maximum(x1,x2)`, for every table the constructor accepts and a prefactor of either sign —
-    provided that, where a limit lies outside the tabulated domain, the edge cubic is monotone between
-    that limit and the end knot (`MonoOn`; inside the domain C01 proves this for every piece, outside
-    it the Steffen limiter guarantees nothing, so it is a hypothesis). -/
+    with NO monotonicity hypothesis (since fix 51ca844 the stationary values of the continued edge cubic are
+    candidates, and the cubic is monotone between consecutive candidates: `edge_monotone_between_candidates`).
+    The only hypothesis besides the table is `SqrtOk`: where a limit lies outside the tabulated domain, the
+    square root is correct at the discriminant of that edge piece (asked only if `sqrt` is called at all). -/
 theorem localExt_curve_zone (o : Obj) (t : Tbl o) (v1 v2 v mn mx fv : Rat) (h1 : v1 ≤ v) (h2 : v ≤ v2)
-    (hL : v1 < o.x 0 → MonoOn o 0 v1 (o.x 0)) (hR : o.x (o.N - 1) < v2 → MonoOn o (o.N - 2) (o.x (o.N - 1)) v2)
+    (hL : v1 < o.x 0 → SqrtOk o 0) (hR : o.x (o.N - 1) < v2 → SqrtOk o (o.N - 2))
     (hmn : pLocalExt o false v1 v2 = .ok mn) (hmx : pLocalExt o true v1 v2 = .ok mx) (hf : pInterp o v = .ok fv) :
     mn ≤ fv ∧ fv ≤ mx := by
   obtain ⟨i1, i2, hle, l1, l2, emn⟩ := pLocalExt_inv o false hmn
@@ -158,7 +162,7 @@ theorem localExt_curve (o : Obj) (t : Tbl o) (v1 v2 v mn mx fv : Rat)
     bound does not depend on which of the two admissible indices a search returns at a knot -/
 theorem localExt_curve_piece (o : Obj) (t : Tbl o) (v1 v2 w mn mx : Rat) (j : Nat) (hj : j + 2 ≤ o.N)
     (hw0 : o.x j ≤ w) (hw1 : w ≤ o.x (j + 1)) (h1 : v1 ≤ w) (h2 : w ≤ v2)
-    (hL : v1 < o.x 0 → MonoOn o 0 v1 (o.x 0)) (hR : o.x (o.N - 1) < v2 → MonoOn o (o.N - 2) (o.x (o.N - 1)) v2)
+    (hL : v1 < o.x 0 → SqrtOk o 0) (hR : o.x (o.N - 1) < v2 → SqrtOk o (o.N - 2))
     (hmn : pLocalExt o false v1 v2 = .ok mn) (hmx : pLocalExt o true v1 v2 = .ok mx) :
     mn ≤ o.cubicAt j w ∧ o.cubicAt j w ≤ mx := by
   obtain ⟨i1, i2, hle, l1, l2, emn⟩ := pLocalExt_inv o false hmn
@@ -174,50 +178,57 @@ theorem localExt_curve_piece (o : Obj) (t : Tbl o) (v1 v2 w mn mx : Rat) (j : Na
     (`Derivative(·,1)` without the prefactor) does not change sign between the limit and the end knot -/
 theorem monoOn_of_deriv_sign (o : Obj) (j : Nat) (a b : Rat)
     (h : (∀ u, a ≤ u → u ≤ b → 0 ≤ Lp.C01.cubicD1 o.N o.x o.y j u) ∨ (∀ u, a ≤ u → u ≤ b → Lp.C01.cubicD1 o.N o.x o.y j u ≤ 0)) :
-    MonoOn o j a b := by
-  have key : ∀ u w : Rat, Lp.C01.cubic o.N o.x o.y j w - Lp.C01.cubic o.N o.x o.y j u =
-      (w - u) * (Lp.C01.cubicD1 o.N o.x o.y j u + 4 * Lp.C01.cubicD1 o.N o.x o.y j ((u + w) / 2)
-        + Lp.C01.cubicD1 o.N o.x o.y j w) / 6 := by
-    intro u w
-    unfold Lp.C01.cubic Lp.C01.cubicD1
-    rw [Lp.C01.seg_diff, show (u + w) / 2 - o.x j = (u - o.x j + (w - o.x j)) / 2 by ring]
-    ring
-  rcases h with h | h
-  · refine Or.inl fun u w h0 h1 h2 => ?_
-    have d1 := h u h0 (le_trans h1 h2)
-    have d2 := h ((u + w) / 2) (by linarith) (by linarith)
-    have d3 := h w (le_trans h0 h1) h2
-    have := key u w
-    have := mul_nonneg (sub_nonneg.mpr h1) (by linarith : 0 ≤ Lp.C01.cubicD1 o.N o.x o.y j u
-      + 4 * Lp.C01.cubicD1 o.N o.x o.y j ((u + w) / 2) + Lp.C01.cubicD1 o.N o.x o.y j w)
-    linarith
-  · refine Or.inr fun u w h0 h1 h2 => ?_
-    have d1 := h u h0 (le_trans h1 h2)
-    have d2 := h ((u + w) / 2) (by linarith) (by linarith)
-    have d3 := h w (le_trans h0 h1) h2
-    have := key u w
-    have := mul_nonneg (sub_nonneg.mpr h1) (by linarith : 0 ≤ -(Lp.C01.cubicD1 o.N o.x o.y j u
-      + 4 * Lp.C01.cubicD1 o.N o.x o.y j ((u + w) / 2) + Lp.C01.cubicD1 o.N o.x o.y j w))
-    linarith
+    MonoOn o j a b := monoOn_of_sign o j a b h
+
+/-- **the continued edge cubic is monotone between consecutive candidates** (what fix 51ca844 buys): on `[u,v]` with no
+    stationary abscissa computed by `Stationary_Values` strictly inside, piece `j` is monotone — given only that the
+    square root is correct at the discriminant actually passed to it -/
+theorem edge_monotone_between_candidates (o : Obj) (j : Nat) (hs : SqrtOk o j) (u v : Rat)
+    (hno : ∀ r ∈ statRoots (3 * coefA o.N o.x o.y j) (2 * coefB o.N o.x o.y j) (coefC o.N o.x o.y j),
+      o.x j + r ≤ u ∨ v ≤ o.x j + r) : MonoOn o j u v := monoOn_between_roots o j hs u v hno
 
 /-- **the extrema are attained on `[x1,x2]`**: each result is the value `Interpolate` returns at some
-    abscissa of the interval (a limit, or a knot between the limits) — for all limits `Locate`
-    accepts, without any monotonicity hypothesis -/
+    abscissa of the interval — a limit, a knot between the limits, or (fix 51ca844) a stationary point of the
+    continued edge cubic strictly between an extrapolated limit and the end knot — for all limits `Locate`
+    accepts, every square-root function and without any monotonicity hypothesis -/
 theorem localExt_attained (o : Obj) (t : Tbl o) (isMax : Bool) (v1 v2 m : Rat) (h : pLocalExt o isMax v1 v2 = .ok m) :
-    ∃ w, v1 ≤ w ∧ w ≤ v2 ∧ pInterp o w = .ok m ∧ (w = v1 ∨ w = v2 ∨ ∃ k, k < o.N ∧ w = o.x k) := by
+    ∃ w, v1 ≤ w ∧ w ≤ v2 ∧ pInterp o w = .ok m ∧
+      (w = v1 ∨ w = v2 ∨ (∃ k, k < o.N ∧ w = o.x k) ∨ (v1 < w ∧ w < o.x 0) ∨ (o.x (o.N - 1) < w ∧ w < v2)) := by
   obtain ⟨i1, i2, hle, l1, l2, em⟩ := pLocalExt_inv o isMax h
-  rcases extVal_is_candidate o isMax v1 v2 (o.cubicAt i1 v1) (o.cubicAt i2 v2) i1 i2 with e | e | ⟨k, k1, k2, e⟩
+  rcases extVal_is_candidate o isMax v1 v2 (o.cubicAt i1 v1) (o.cubicAt i2 v2) i1 i2 with e | e | ⟨k, k1, k2, e⟩ | e | e
   · exact ⟨v1, le_refl _, hle, by rw [em, e]; exact pInterp_located o l1, Or.inl rfl⟩
   · exact ⟨v2, hle, le_refl _, by rw [em, e]; exact pInterp_located o l2, Or.inr (Or.inl rfl)⟩
   · obtain ⟨hk, a, b⟩ := knot_in_limits t l1 l2 k1 k2
-    exact ⟨o.x k, a, b, by rw [em, e]; exact pInterp_knot t hk, Or.inr (Or.inr ⟨k, hk, rfl⟩)⟩
+    exact ⟨o.x k, a, b, by rw [em, e]; exact pInterp_knot t hk, Or.inr (Or.inr (Or.inl ⟨k, hk, rfl⟩))⟩
+  · unfold statL at e
+    by_cases hz : v1 < o.x 0
+    · simp only [hz, if_true] at e
+      obtain ⟨w, w1, w2, ew⟩ := mem_stationaryValues e
+      have wv2 : w < v2 := lt_of_lt_of_le w2 (rmin_le_left _ _)
+      have wx0 : w < o.x 0 := lt_of_lt_of_le w2 (rmin_le_right _ _)
+      have lw := zone_left_located t l1 hz (le_of_lt w1) wx0
+      exact ⟨w, le_of_lt w1, le_of_lt wv2, by rw [em, ew]; exact pInterp_located o lw,
+        Or.inr (Or.inr (Or.inr (Or.inl ⟨w1, wx0⟩)))⟩
+    · simp only [hz, if_false] at e
+      cases e
+  · unfold statR at e
+    by_cases hz : v2 > o.x (o.N - 1)
+    · simp only [hz, if_true] at e
+      obtain ⟨w, w1, w2, ew⟩ := mem_stationaryValues e
+      have wv1 : v1 < w := lt_of_le_of_lt (le_rmax_left _ _) w1
+      have wxN : o.x (o.N - 1) < w := lt_of_le_of_lt (le_rmax_right _ _) w1
+      have lw := zone_right_located t l2 hz (le_of_lt w2) wxN
+      exact ⟨w, le_of_lt wv1, le_of_lt w2, by rw [em, ew]; exact pInterp_located o lw,
+        Or.inr (Or.inr (Or.inr (Or.inr ⟨wxN, w2⟩)))⟩
+    · simp only [hz, if_false] at e
+      cases e
 
 /-! ## [T2] `integ_bounds` -/
 
 /-- limits anywhere `Locate` accepts (monotone edge cubic where a limit lies outside the domain):
     `Local_Minimum·(x2−x1) ≤ Integrate(x1,x2) ≤ Local_Maximum·(x2−x1)`, across any number of pieces -/
 theorem integ_bounds_zone (o : Obj) (t : Tbl o) (v1 v2 mn mx I : Rat)
-    (hL : v1 < o.x 0 → MonoOn o 0 v1 (o.x 0)) (hR : o.x (o.N - 1) < v2 → MonoOn o (o.N - 2) (o.x (o.N - 1)) v2)
+    (hL : v1 < o.x 0 → SqrtOk o 0) (hR : o.x (o.N - 1) < v2 → SqrtOk o (o.N - 2))
     (hmn : pLocalExt o false v1 v2 = .ok mn) (hmx : pLocalExt o true v1 v2 = .ok mx) (hI : pInteg o v1 v2 = .ok I) :
     mn * (v2 - v1) ≤ I ∧ I ≤ mx * (v2 - v1) := by
   obtain ⟨i1, i2, hle, l1, l2, emn⟩ := pLocalExt_inv o false hmn
@@ -365,7 +376,46 @@ theorem prefactor_scaling_global_2D (o : Obj2) (p : Rat) :
     obtain ⟨a1, a2⟩ := q2 hp
     exact ⟨by rw [a1, e2, one_mul], by rw [a2, e1, one_mul]⟩
 
-/-! ## Non-vacuity -/
+end Lp.C08
+
+namespace Lp.C08
+open Lp Lp.Interp Lp.C09
+
+/-! ## Non-vacuity (with one concrete square-root function; the tables below never call it) -/
+
+/-- a square-root function for the examples -/
+@[reducible] def exampleSqrt : SqrtFn := ⟨fun _ => 0⟩
+attribute [local instance] exampleSqrt
+
+/-- on the straight-line table `sqrt` is never called (`A = 0` on both pieces), so `SqrtOk` holds for every square-root function -/
+theorem lin_sqrtOk (j : Nat) (hj : j < 2) : SqrtOk lin j := by
+  intro hA
+  exfalso; apply hA
+  rcases j with _ | _ | j
+  · decide +kernel
+  · decide +kernel
+  · omega
+
+/-- the audit's table `x = 0,1,2`, `y = 0,1,3.98` (defect 16): the edge piece is the parabola `0.99 t² + 0.01 t`, it turns at
+    `t = −1/198` inside the 1 % zone -/
+def aud : Obj := { N := 3, xs := #[0, 1, 2], ys := #[0, 1, 199 / 50], pref := 1, st := ⟨0, false⟩ }
+
+theorem aud_tbl : Tbl aud :=
+  ⟨by decide, fun i j hij hj => by
+    have : j < 3 := hj
+    rcases j with _ | _ | _ | j <;> rcases i with _ | _ | _ | i <;> first | omega | decide +kernel⟩
+
+/-- `Local_Minimum(−0.009, 0.5)` is the stationary value `−1/39600 = −2.52525e-5` (before fix 51ca844: `−9.81e-6`) and bounds
+    `Interpolate(−0.00505) = −2.525e-5`; `sqrt` is not called (`A = 0`) -/
+example : pLocalExt aud false (-9 / 1000) (1 / 2) = .ok (-1 / 39600) ∧ pLocalExt aud true (-9 / 1000) (1 / 2) = .ok (101 / 400) ∧
+    pInterp aud (-101 / 20000) = .ok (-1010101 / 40000000000) := by decide +kernel
+
+example : (-1 / 39600 : Rat) ≤ -1010101 / 40000000000 ∧ (-1010101 / 40000000000 : Rat) ≤ 101 / 400 :=
+  localExt_curve_zone aud aud_tbl (-9 / 1000) (1 / 2) (-101 / 20000) (-1 / 39600) (101 / 400) (-1010101 / 40000000000)
+    (by decide +kernel) (by decide +kernel)
+    (fun _ hA => absurd (by decide +kernel : (3 * coefA aud.N aud.x aud.y 0) = 0) hA) (fun h => absurd h (by decide +kernel))
+    (by decide +kernel) (by decide +kernel) (by decide +kernel)
+
 
 example : Tbl Lp.C09.demo := (Lp.C09.mk_WF _ _ _ _ _ Lp.C09.demo_mk).tbl
 example : (0 : Rat) ∈ Lp.C09.demo.ys.toList := by decide
@@ -392,7 +442,8 @@ example : (0 : Rat) ≤ Lp.C09.demo.cubicAt 1 2 ∧ Lp.C09.demo.cubicAt 1 2 ≤ 
     (by decide +kernel) (by decide +kernel) (by decide +kernel) (by decide +kernel) (by decide +kernel)
     (fun h => absurd h (by decide +kernel)) (fun h => absurd h (by decide +kernel)) (by decide +kernel) (by decide +kernel)
 
-example : ∃ w, (1 / 2 : Rat) ≤ w ∧ w ≤ 5 / 2 ∧ pInterp Lp.C09.demo w = .ok 0 ∧ (w = 1 / 2 ∨ w = 5 / 2 ∨ ∃ k, k < Lp.C09.demo.N ∧ w = Lp.C09.demo.x k) :=
+example : ∃ w, (1 / 2 : Rat) ≤ w ∧ w ≤ 5 / 2 ∧ pInterp Lp.C09.demo w = .ok 0 ∧ (w = 1 / 2 ∨ w = 5 / 2 ∨ (∃ k, k < Lp.C09.demo.N ∧ w = Lp.C09.demo.x k) ∨ ((1 / 2 : Rat) < w ∧ w < Lp.C09.demo.x 0) ∨
+      (Lp.C09.demo.x (Lp.C09.demo.N - 1) < w ∧ w < 5 / 2)) :=
   localExt_attained Lp.C09.demo (Lp.C09.mk_WF _ _ _ _ _ Lp.C09.demo_mk).tbl false (1 / 2) (5 / 2) 0 (by decide +kernel)
 
 /-- `monoOn_of_deriv_sign`: the reported derivative of the straight-line table is `1` everywhere -/
@@ -410,20 +461,20 @@ example : ∀ u : Rat, -1 / 200 ≤ u → u ≤ lin.x 0 → 0 ≤ Lp.C01.cubicD1
 /-- the `_zone` statements: straight-line table `x = y = 0,1,2`, prefactor `-2`, both limits in the 1 % zones;
     the edge cubics are monotone there (`lin_mono`), the results are the two end values -/
 example : (-1 / 200 : Rat) < lin.x 0 ∧ lin.x (lin.N - 1) < (401 / 200 : Rat) ∧
-    MonoOn lin 0 (-1 / 200) (lin.x 0) ∧ MonoOn lin (lin.N - 2) (lin.x (lin.N - 1)) (401 / 200) ∧
+    SqrtOk lin 0 ∧ SqrtOk lin (lin.N - 2) ∧
     pLocalExt lin false (-1 / 200) (401 / 200) = .ok (-401 / 100) ∧ pLocalExt lin true (-1 / 200) (401 / 200) = .ok (1 / 100) ∧
     pInterp lin (-1 / 400) = .ok (1 / 200) ∧ pInteg lin (-1 / 200) (401 / 200) = .ok (-201 / 50) :=
-  ⟨by decide +kernel, by decide +kernel, lin_mono 0 (by decide) _ _, lin_mono 1 (by decide) _ _,
+  ⟨by decide +kernel, by decide +kernel, lin_sqrtOk 0 (by decide), lin_sqrtOk 1 (by decide),
    by decide +kernel, by decide +kernel, by decide +kernel, by decide +kernel⟩
 
 example : (-401 / 100 : Rat) ≤ 1 / 200 ∧ (1 / 200 : Rat) ≤ 1 / 100 :=
   localExt_curve_zone lin lin_tbl (-1 / 200) (401 / 200) (-1 / 400) (-401 / 100) (1 / 100) (1 / 200)
-    (by decide +kernel) (by decide +kernel) (fun _ => lin_mono 0 (by decide) _ _) (fun _ => lin_mono 1 (by decide) _ _)
+    (by decide +kernel) (by decide +kernel) (fun _ => lin_sqrtOk 0 (by decide)) (fun _ => lin_sqrtOk 1 (by decide))
     (by decide +kernel) (by decide +kernel) (by decide +kernel)
 
 example : (-401 / 100 : Rat) * (401 / 200 - -1 / 200) ≤ -201 / 50 ∧ (-201 / 50 : Rat) ≤ 1 / 100 * (401 / 200 - -1 / 200) :=
   integ_bounds_zone lin lin_tbl (-1 / 200) (401 / 200) (-401 / 100) (1 / 100) (-201 / 50)
-    (fun _ => lin_mono 0 (by decide) _ _) (fun _ => lin_mono 1 (by decide) _ _)
+    (fun _ => lin_sqrtOk 0 (by decide)) (fun _ => lin_sqrtOk 1 (by decide))
     (by decide +kernel) (by decide +kernel) (by decide +kernel)
 
 end Lp.C08
